@@ -9,14 +9,18 @@ import CacheVerif.Proofs.DeepJanitor
 
 * `C15_enabled_iff`: for every constructor variant and every interval (negative, 0, positive) the janitor
   goroutine is started iff the normalised cleanup interval is positive (machine-translated `configDefault*`).
-* `C15_tick_cleans`: one janitor tick is one `DeleteExpired` pass (the goroutine's loop body is `c.DeleteExpired()`
-  — extracted fact); after a pass no entry expired at the pass's clock remains and each removed entry was handed
+* `C15_tick_cleans`: one janitor tick is one `DeleteExpired` pass (the goroutine's tick clause is `c.DeleteExpired()`
+  — `C15_source_janitor_tick`); after a pass no entry expired at the pass's clock remains and each removed entry was handed
   to the callback in force exactly once (C06), and Count equals the number of live entries (C08).
 * `C15_no_janitor_no_removal`: without a janitor the content changes only through steps of user calls: the only
   other transition of the concurrent cache model is the clock tick, which leaves the physical content untouched.
-* `C15_collectable`: structural facts extracted from the working tree: the janitor goroutine's closure captures
-  the inner object `c` (and `cfg`), **not** the wrapper `cache` the finalizer is attached to; the finalizer's only
-  action is `close(m.stop)`; the janitor loop returns on `<-c.stop`.
+* `C15_source_started`, `C15_source_janitor_life`, `C15_source_janitor_tick`, `C15_source_collectable`: the goroutine
+  and the finalizer as `tools/go2deep -ctor` prints them from the two constructors on every run, interpreted event by
+  event (`Deep/Janitor.lean`): started iff the machine-translated guard holds; n ticks then the finalizer's event =
+  n `DeleteExpired` passes of the model, then the goroutine has returned; the function literal captures the inner
+  object `c` (and `cfg`), **not** the wrapper the finalizer is attached to; the finalizer's only action is closing the
+  channel the loop returns on.  (They replace the pinned token-stream facts `C15_collectable` / `C15_janitor_loop` of
+  the second session, which broke on harmless rewrites such as swapping the two `select` clauses.)
 **Partial**: that the Go GC runs the finalizer and that the ticker fires are runtime behaviour; they are observed
 by the native harness (`vharness janitor`), not proved.
 -/
@@ -53,7 +57,7 @@ theorem C15_tick_cleans (s : Cache.St K V) (hw : AMap.WF s.items) (k : K) :
       | none => none :=
   (C06.C06_deleteExpired s hw).2.2 k
 
-/-- the same for the text of `DeleteExpired` in both files (the janitor's tick is that method - `C15_janitor_loop`) -/
+/-- the same for the text of `DeleteExpired` in both files (the janitor's tick is that method - `C15_source_janitor_tick`) -/
 theorem C15_source_tick_cleans (s : Cache.St K V) (hw : AMap.WF s.items) (k : K) (T : Deep.Twin K V) (hT : DeepSource.IsTwin T) :
     ∃ s' r, Deep.deepStep T s .deleteExpired = some (s', r) ∧
       s'.items.get k = match s.items.get k with
@@ -66,29 +70,6 @@ theorem C15_no_janitor_no_removal (s : ConcCache.St K V) (c : ConcCache.Choice K
     (h : ConcCache.step s none c δ = some s') : s'.g.items = s.g.items ∧ s'.g.ledger = s.g.ledger := by
   simp only [ConcCache.step, Option.some.injEq] at h
   subst h; exact ⟨rfl, rfl⟩
-
-/-- the janitor goroutine does not keep the wrapper alive; the finalizer closes `stop`; the loop exits on `stop` -/
-theorem C15_collectable :
-    ("cache" ∉ Gen.Facts.cache_xsync_map_newXsyncMap_go0_captures) ∧
-    ("cache" ∉ Gen.Facts.cache_xsync_mapof_newXsyncMapOf_go0_captures) ∧
-    Gen.Facts.cache_xsync_map_newXsyncMap_finalizer_target = "cache" ∧
-    Gen.Facts.cache_xsync_mapof_newXsyncMapOf_finalizer_target = "cache" ∧
-    Gen.Facts.cache_xsync_map_newXsyncMap_finalizer_captures = [] ∧
-    Gen.Facts.cache_xsync_mapof_newXsyncMapOf_finalizer_captures = [] := by
-  decide
-
-/-- `a` occurs as a contiguous block in `l` -/
-def hasInfix (a : List String) : List String → Bool
-  | [] => a.isEmpty
-  | x :: xs => a.isPrefixOf (x :: xs) || hasInfix a xs
-
-/-- the janitor's loop body and exit, and the finalizer's body, as extracted (both twins identical) -/
-theorem C15_janitor_loop :
-    Gen.Facts.cache_xsync_map_newXsyncMap = Gen.Facts.cache_xsync_mapof_newXsyncMapOf.map
-      (fun t => if t = "configDefaultOf" then "configDefault" else if t = "NewMapOfPresized" then "NewMapPresized" else t) ∧
-    hasInfix ["select{", "case:", "c.DeleteExpired", "case:", "R:stop", "return", "}"] Gen.Facts.cache_xsync_map_newXsyncMap = true ∧
-    hasInfix ["func{", "R:stop", "close", "}", "runtime.SetFinalizer"] Gen.Facts.cache_xsync_map_newXsyncMap = true := by
-  decide
 
 /-! ### the goroutine itself, as printed from the constructors of both files on every run
 
